@@ -259,7 +259,7 @@ def random_ops(rng, pool, maxhosts=4):
 # ---- histories over loopback connections (plain HTTP/1.x, TLS + HTTP/1.1, TLS + HTTP/2) ------------------
 PATHS = [b"/h/page", b"/h/page?q=1", b"/h/other", b"/f.txt", b"/g.txt"]
 CONN_HOSTS = [b"localhost", b"localhost:8080", b"127.0.0.1", b"127.0.0.1:80", b"[::1]", b"[::1]:443", b"unknown.test", b"LOCALHOST"]
-# Host values that are not URI authorities (before e25cce6: connection closed / path changed)
+# Host values that are not URI authorities (before c618f50: connection closed / path changed)
 BAD_AUTH = [b"", b"a b", b"[::1", b"localhost:80:80", b":80", b"\xe4.test", b"a\ttest", b"a.test/x", b"a.test?q", b"a.test#f", b"@", b"a.test:", b"::1"]
 H2_AUTH = [b"localhost", b"localhost:8443", b"127.0.0.1:8443", b"[::1]:8443", b"unknown.test", b"LOCALHOST"]
 SNIS = [b"unknown.test", b"localhost", b"www.unknown.test"]
